@@ -956,6 +956,34 @@ func TestVerifC05(t *testing.T) {
 		w.sendAuthDoc(sa, exp, false, "expired")
 		w.sendAuthDoc(sa, tb, true, "other-users-token-2")
 	})
+	// S6b: a password login that arrives with a stale auth cookie still attached (what a browser does after the session
+	// ran out): the new session holds the password factor only, whatever the old cookie once held
+	scenario("login-with-stale-cookie", func() {
+		a, b := w.newUser("s6ba", true), w.newUser("s6bb", true)
+		high := verifBit["password"] | verifBit["U2F"] | verifBit["TOTP"]
+		ca := verifSigner("ca_rsa2048")
+		stale := []struct{ kind, tok string }{
+			{"own-expired-1h", verifMint(verifSessionClaims(a.Name, high, time.Now().Add(-17*time.Hour), 16*time.Hour), ca)},
+			{"own-expired-5s", verifMint(verifSessionClaims(a.Name, high, time.Now().Add(-16*time.Hour-5*time.Second), 16*time.Hour), ca)},
+			{"own-not-yet-valid", verifMint(verifSessionClaims(a.Name, high, time.Now().Add(time.Hour), 16*time.Hour), ca)},
+			{"other-users-expired", verifMint(verifSessionClaims(b.Name, high, time.Now().Add(-17*time.Hour), 16*time.Hour), ca)},
+			{"own-foreign-key", verifMint(verifSessionClaims(a.Name, high, time.Now().Add(-time.Minute), 16*time.Hour), verifSigner("user_rsa2048"))},
+		}
+		for _, st := range stale {
+			r := w.do(verifReq{Method: "POST", Path: "/api/v0/login", Form: url.Values{"username": {a.Name}, "password": {a.Password}},
+				Cookies: map[string]string{"auth_cookie": st.tok}})
+			w.log("login(%s) with stale cookie %s = %d", a.Name, st.kind, r.Code)
+			w.rep.Eval(fmt.Sprintf("login-with-stale-cookie|%s|%d", st.kind, r.Code))
+			em := ""
+			if c := r.Cookie("auth_cookie"); c != nil {
+				em = c.Value
+			}
+			if em != "" {
+				w.rep.Count("logins_with_stale_cookie_checked", 1)
+			}
+			w.check("login:with-stale-cookie:"+st.kind, "", em, 0, a.Name)
+		}
+	})
 	// S7: two auth cookies in one request (the victim's and the adversary's own), the adversary proves its own factor
 	scenario("two-cookies", func() {
 		a, b := w.newUser("s7a", true), w.newUser("s7b", true)
@@ -1081,7 +1109,8 @@ func TestVerifC05(t *testing.T) {
 	rep.Floor("webauthn_honoured", 1)
 	rep.Floor("expired_challenge_checked", 1)
 	rep.Floor("totp_replay_next_step_checked", 1)
-	rep.Floor("scenarios_completed", 12+nPairs)
+	rep.Floor("scenarios_completed", 13+nPairs)
+	rep.Floor("logins_with_stale_cookie_checked", 5)
 	rep.Floor("slow_read_scenarios", 1)
 	rep.Floor("mixed_credential_requests", 2)
 	rep.Floor("cli_token_lifetimes_checked", 2)
